@@ -215,7 +215,7 @@ class StatsSpec(Spec):
             "non-trivial; distinct = distinct event-log digest")
     expected_probes = ("timing_reports_checked", "traffic_reports_checked", "traffic_submsgs_2", "traffic_submsgs_3",
                        "traffic_submsgs_5", "timing_empty_interval", "timing_out_of_range_types", "huge_count",
-                       "notices_counted", "timing_switched_off")
+                       "notices_counted", "timing_switched_off", "watcher_mode", "traffic_reports_after_gap_checked")
     assumptions = ["'handled for forwarding' = client data frames read + manager-originated messages sent through "
                    "forwarding; ACKNOWLEDGE copies to loggers are not asserted either way",
                    "out-of-range destinations, pre-handshake frames and connection failures are not generated here"]
@@ -288,7 +288,7 @@ class ValidationSpec(Spec):
             "in quick).  non-trivial = the run contained a refusal or an in-force probe; distinct = distinct trace")
     expected_probes = ("probe_in_force", "probe_inside_block", "validation_off_inside_block", "block_exception",
                        "block_lib_exception", "nested_block", "tasks_3", "assign_set", "assign_item", "assign_slice",
-                       "assign_from", "assign_nested", "refused", "accepted", "stale_accessor_used_in_force")
+                       "assign_from", "assign_nested", "refused", "accepted", "stale_accessor_used_in_force", "line_level_mode")
     components = {"real": ["pyrtma.validators (all descriptors, disable_message_validation)", "pyrtma.message_base",
                            "pyrtma.message_data"],
                   "stub": ["baton-scheduled tasks instead of OS-scheduled threads"]}
